@@ -196,6 +196,7 @@ def check(ctx):
     ctx.rule("R5", "inside one function every access to the job structures happens under one view of the tables", floor=12)
     ctx.rule("R7", "resume_job reports success only after it made the selected job the current one (front of the order): bg acts on the current job afterwards", floor=2)
     ctx.rule("R8", "every job command looks at live jobs only: jobs, fg / bg (resume_job) and disown purge finished jobs before they read the table - a command that selects 'the current job' from an unpurged order acts on a job that has already finished (`disown` after the most recent job exited reports 'Removed job N (running)' and leaves the live current job alone)", floor=3)
+    ctx.rule("R9", "every pipeline with at least one real process is registered: the only conditions on the way to add_job in the runner of a command pipeline are 'there is a process object at all' and a test quantified over the whole list of stages (not every stage is a proxy) - a guard that judges the pipeline by one stage, by part of the list or by another attribute of the command leaves real children out of the job table (`sleep 100 | alias &` would run untracked)", floor=2)
     ctx.rule("R4", "jobs/bg/disown run against the main thread's table; use_main_jobs restores the thread-local view on every exit; fg is unthreadable", floor=5)
 
     mod = ctx.repo.module(JB)
@@ -438,6 +439,7 @@ def check(ctx):
     else:
         _use_main_jobs_generator(ctx, mod)
     _commands_purge_first(ctx, mod)
+    _registration_total(ctx)
 
 
     # ---- R5 one view per function
@@ -693,6 +695,96 @@ def _commands_purge_first(ctx, mod):
             raise AnalysisError(f"{JB}:{q}: no read of the job structures found")
         ok = bool(purge) and all(cfg.dominated(r, lambda m: m in purge) for r in reads)
         ctx.ob("R8", f"{JB}:{q}", "finished jobs are purged (_clear_dead_jobs) before the first read of the job structures", ok, key=f"{q}|reads-unpurged-table", where=loc(reads[0].ast))
+
+def _registration_total(ctx):
+    """R9: the guard of the add_job call is quantified over every stage."""
+    from ..engine import dataflow as _df
+
+    SP = "xonsh/procs/specs.py"
+    sp = ctx.repo.module(SP)
+    sites = []
+    for q, f in sp.functions():
+        if any((call_name(c) or "").split(".")[-1] == "add_job" for c in calls_in(f)):
+            sites.append((q, f))
+    if not sites:
+        raise AnalysisError(f"{SP}: no call of add_job found")
+    for q, raw in sites:
+        fn = flat(ctx, raw, 1, skip=("add_job",))
+        st = f"{SP}:{q}"
+        defs = _df.all_defs(fn)
+        params = [a.arg for a in fn.args.posonlyargs + fn.args.args]
+        # names standing for the pipeline object built from the stage list, and for the stage list itself
+        # by role: the object built from a parameter (the stage list) that the runner hands back
+        returned = {r.value.id for r in walk_local(fn) if isinstance(r, ast.Return) and isinstance(r.value, ast.Name)}
+        pipes, lists = set(), set()
+        for n, ds in defs.items():
+            for d in ds:
+                if d.kind == "assign" and d.index is None and isinstance(d.value, ast.Call) and d.value.args and isinstance(d.value.args[0], ast.Name) and d.value.args[0].id in params and n in returned:
+                    pipes.add(n)
+                    lists.add(d.value.args[0].id)
+        if not pipes:
+            raise AnalysisError(f"{st}: the pipeline object is not built here")
+        whole = lists | {f"{p_}.specs" for p_ in pipes} | {f"{p_}.procs" for p_ in pipes}
+
+        def expand(e, depth=4):
+            while depth and isinstance(e, ast.Name):
+                d = _df.single_def(defs, e.id)
+                if d is None or d.kind != "assign" or d.value is None or d.index is not None:
+                    break
+                e = d.value
+                depth -= 1
+            return e
+
+        def is_whole(it):
+            it = expand(it)
+            return unparse(it) in whole
+
+        cfg = CFG(fn)
+        calls = [n for n in cfg.nodes if n.kind == "stmt" and any((call_name(c) or "").split(".")[-1] == "add_job" for c in calls_in(n.ast))]
+        if not calls:
+            raise AnalysisError(f"{st}: add_job is not called from a plain statement")
+        for cn in calls:
+            facts = facts_at(cfg, cn)
+            quantified = False
+            for e, pol in facts:
+                e = expand(e)
+                if isinstance(e, ast.UnaryOp) and isinstance(e.op, ast.Not):
+                    e, pol = e.operand, not pol
+                txt = ("" if pol else "not ") + short(e, 60)
+                reads_proxy = any(isinstance(x, ast.Attribute) and x.attr == "is_proxy" for x in ast.walk(e))
+                if reads_proxy:
+                    ok = False
+                    why = "judges the pipeline by one stage (or part of the list), not by all of them"
+                    if isinstance(e, ast.Call) and call_name(e) in ("all", "any") and e.args and isinstance(e.args[0], (ast.GeneratorExp, ast.ListComp)):
+                        g = e.args[0]
+                        gen = g.generators[0]
+                        tn = {x.id for x in ast.walk(gen.target) if isinstance(x, ast.Name)}
+                        elt = g.elt
+                        neg = False
+                        if isinstance(elt, ast.UnaryOp) and isinstance(elt.op, ast.Not):
+                            elt, neg = elt.operand, True
+                        plain = isinstance(elt, ast.Attribute) and elt.attr == "is_proxy" and isinstance(elt.value, ast.Name) and elt.value.id in tn
+                        form = (call_name(e) == "all" and not neg and not pol) or (call_name(e) == "any" and neg and pol)
+                        ok = plain and form and len(g.generators) == 1 and not gen.ifs and is_whole(gen.iter)
+                        if plain and form and not is_whole(gen.iter):
+                            why = f"quantifies over `{short(gen.iter, 40)}`, not over every stage"
+                    elif isinstance(e, ast.Attribute) and e.attr == "is_proxy" and isinstance(e.value, ast.Name) and not pol:
+                        # `for s in specs: if not s.is_proxy: add_job(..)` - existential by iteration
+                        ds = defs.get(e.value.id, [])
+                        ok = bool(ds) and all(d.kind == "for" and d.index is None and is_whole(d.value) for d in ds)
+                    quantified = quantified or ok
+                    ctx.ob("R9", st, f"the registration guard `{txt}` asks every stage", ok, key=f"{q}|guard-not-over-all-stages|{unparse(e)[:50]}", where=loc(e), detail=None if ok else why + ": a pipeline whose other stages are real processes is never entered in the job table")
+                    continue
+                # 'there is a process object at all'
+                roots = {x.id for x in ast.walk(e) if isinstance(x, ast.Name)}
+                nothing = isinstance(e, ast.Compare) and len(e.ops) == 1 and isinstance(e.ops[0], (ast.Is, ast.IsNot)) and const_value(e.comparators[0], 0) is None
+                if nothing:
+                    continue
+                about_cmd = any(isinstance(x, ast.Attribute) and isinstance(expand(x.value) if isinstance(x.value, ast.Name) else x.value, (ast.Name, ast.Attribute, ast.Subscript)) and ({y.id for y in ast.walk(x) if isinstance(y, ast.Name)} & (pipes | lists | set(params))) for x in ast.walk(e)) or bool(roots & {n for n in defs if any(d.kind == "assign" and d.value is not None and ({y.id for y in ast.walk(d.value) if isinstance(y, ast.Name)} & (pipes | lists)) for d in defs[n])})
+                if about_cmd:
+                    ctx.ob("R9", st, f"no other attribute of the command decides whether it is registered (`{txt}`)", False, key=f"{q}|registration-narrowed|{unparse(e)[:50]}", where=loc(e), detail="pipelines for which this test fails run without a job-table entry")
+            ctx.ob("R9", st, "the way to add_job passes a test quantified over every stage (or is unconditional)", quantified or not any(any(isinstance(x, ast.Attribute) and x.attr == "is_proxy" for x in ast.walk(expand(e))) for e, _ in facts), key=f"{q}|guard-shape", where=loc(cn.ast))
+
 
 META = {
     "technique": "static analysis: who-may-write + effect summaries of every mutator of the two job structures, CFG pairing (must-pass-through/dominance) and reachability of error returns after mutation",
